@@ -817,7 +817,7 @@ def r04_2(ctx):
                         ctx.ob(f"G7:reset-keeps-pos-le-len:{b.name}", ok_r, site(b, bi), f"`{len_f}` is re-initialised together with `{pos_f} = 0`" if ok_r else f"`{len_f}` is reset while `{pos_f}` keeps its old value: buf[{pos_f}..{len_f}] can panic with start > end")
 
 
-@rule("R04.3", 8, "use-once typestate behind take_parent().expect(): each State-bearing object is handed to exactly one driver call per construction; take_parent is reached at most once per body", ["C04"])
+@rule("R04.3", 6, "use-once typestate behind take_parent().expect(): each State-bearing object is handed to exactly one driver call per construction; take_parent is reached at most once per body", ["C04"])
 def r04_3(ctx):
     import r_c11
 
@@ -917,7 +917,7 @@ def r04_3(ctx):
                 if any(vb in r for vb, _ in drivers):
                     once = False
             ctx.ob(key, ok and once, site(b, cb), f"handed to exactly one driver call per construction ({[n for _, n in drivers]})" if ok and once else f"object can be driven twice without being re-created ({[n for _, n in drivers]}): the second take_parent panics")
-    ctx.ob("constructions", n_c >= 5, "lib", f"{n_c} construction(s) of State-bearing objects")
+    ctx.ob("constructions", n_c >= 3, "lib", f"{n_c} construction(s) of State-bearing objects")
 
 
 _ALLOC_SIZE_ARG = {"with_capacity": 0, "with_capacity_in": 0, "with_capacity_and_hasher": 0, "reserve": 1, "reserve_exact": 1, "try_reserve": 1, "resize": 1, "from_elem": 1}
@@ -1040,7 +1040,7 @@ def r04_6(ctx):
                 ctx.ob(f"narrow-arithmetic:{b.name}:{_nth(_r046_seen, (ctx.config, b.id))}", fits, site(b, line=s["line"]),
                        f"{ty} arithmetic whose operands provably fit" if fits else f"size arithmetic in {ty}: a declared length near {ty}::MAX makes the sum wrap (release) or panic (debug); the value is split at the wrong byte")
     _r046_seen.clear()
-    ctx.ob("calculator-arithmetic-in-usize", n >= 6, site(scope[0]), f"{n} addition(s)/multiplication(s) in the size calculator ({len(scope)} bodies), all in usize or provably fitting")
+    ctx.ob("calculator-arithmetic-in-usize", n >= 3, site(scope[0]), f"{n} addition(s)/multiplication(s) in the size calculator ({len(scope)} bodies), all in usize or provably fitting")
 
 
 _r046_seen = {}
